@@ -330,7 +330,12 @@ impl<'a> Interpreter<'a> {
                             return Err(CelError::value("Only strings can be used as Object keys"));
                         };
 
-                        map.insert(key, stack.pop_val()?);
+                        // entries are popped last-written first: a key that is already
+                        // present was written later in the source and wins
+                        let value = stack.pop_val()?;
+                        if !map.contains_key(&key) {
+                            map.insert(key, value);
+                        }
                     }
 
                     stack.push_val(map.into());
